@@ -39,7 +39,7 @@ def plan(tier, prop):
                 "slices), then a healed alloc+write+read-back; non-trivial = "
                 "at least one view operation completed; distinct = distinct "
                 "abstract event traces",
-        "expected_probes": ["view_object_dropped", "truncation_warning_as_error", "numpy_slice_bounds",
+        "expected_probes": ["view_object_dropped", "truncation_warning_as_error", "numpy_slice_bounds", "seek_rejected",
                             "slice_of_slice", "truncated_write",
                             "truncated_read", "seek_negative", "seek_beyond",
                             "seek_end", "op_after_close", "op_after_free",
@@ -389,6 +389,26 @@ class MemioEngine(object):
              L // 2][t.draw(12)] if t.draw(3) else t.draw(L + 1)
         if self.dead(v):
             return self.expect_dead(v, "seek", v.obj.seek, n, whence)
+        if t.draw(20) == 0:
+            # a seek the view rejects (no such origin): nothing moves
+            bad = [3, -1, 7][t.draw(3)]
+            self.begin("seek", "%s.seek(%d,%d)" % (v.name, n, bad), None)
+            w.probe("seek_rejected")
+            try:
+                v.obj.seek(n, bad)
+            except ValueError:
+                pass
+            else:
+                w.violate("SK", "%s.seek(%d, %d) was accepted" % (v.name, n,
+                                                                  bad),
+                          kind="seek-whence")
+            if v.obj.tell() != v.pos:
+                w.violate("SK", "a rejected seek moved the position of %s "
+                          "from %d to %d" % (v.name, v.pos, v.obj.tell()),
+                          kind="seek-rejected-moved")
+                v.pos = v.obj.tell()
+            self.end("rejected")
+            return
         self.begin("seek", "%s.seek(%d,%d)" % (v.name, n, whence), None)
         v.obj.seek(n, whence)
         if whence == 0:
